@@ -146,6 +146,7 @@ func runC09(c *hx.Ctx) *hx.Outcome {
 						return
 					}
 					s.Logf("consumer got type %d len %d", m.MessageType, len(m.RawData))
+					rt.Progress()
 					cs.got = append(cs.got, m)
 					cs.raw = append(cs.raw, append([]byte(nil), m.RawData...))
 					for j := 0; j < cs.slow; j++ {
@@ -383,7 +384,7 @@ func runC13(c *hx.Ctx) *hx.Outcome {
 			polls = 70000
 		}
 	}
-	s.Budget = 96*(len(data)+16) + 20000 + 12*polls*(len(ints)+1)
+	s.Budget = 96*(len(data)+16) + 20000 + 12*polls // steps since the last byte was handed over
 	src := &env.Source{T: t, Data: data, Ints: ints, MaxChunk: []int{1, 7, 64, 4096, 8192}[t.S(5)], DataWithErr: t.SBool(1, 3), ZeroReads: t.SBool(1, 4), PauseOneIn: []int{0, 0, 0, 3, 40}[t.S(5)]}
 	var got []rtcm.Message
 	closed := 0
@@ -402,6 +403,7 @@ func runC13(c *hx.Ctx) *hx.Outcome {
 					return
 				}
 				s.Logf("consumer got type %d len %d", m.MessageType, len(m.RawData))
+				rt.Progress()
 				m.RawData = append([]byte(nil), m.RawData...)
 				got = append(got, m)
 			}
